@@ -151,12 +151,12 @@ func CheckC14(e *fw.Env, l *Lab) {
 			ctx, _ := base.CacheContext()
 			o := run.Do(w, ctx, t, modC)
 			cls := m.Template + "|" + stripIdxAll(m.Site) + "|" + m.Kind
-			judge(o, m.Malformed, cls, m)
+			judge(o, m.Malformed || m.Unroutable, cls, m)
 			e.Res.Sig("memo|%s|%s|%s|%s", m.Template, m.Site, m.Kind, outcomeClass(o))
 			if idx%5 == 0 && len(m.Memo) < 30000 {
 				ctx, _ := base.CacheContext()
 				oh := run.Do(w, ctx, t, modH)
-				judge(oh, m.Malformed, cls, m)
+				judge(oh, m.Malformed || m.Unroutable, cls, m)
 				if outcomeClass(oh) != outcomeClass(o) && oh.Res.Err == nil {
 					e.Res.Count("modeC-vs-H-outcome-differs")
 				}
